@@ -309,6 +309,12 @@ pub fn run_seq(sc: &SeqScenario) -> Outcome {
         build_pool()
     };
     w(|w| w.handles = 1);
+    {
+        // see `check_not_under_pool_lock`; the clone is dropped before the last
+        // handle is (end of this function)
+        let probe_pool = pool.clone();
+        set_lock_probe(Some(Box::new(move || probe_pool.verif_snapshot().is_none())));
+    }
     if sc.prefill > 0 {
         w(|w| {
             w.forced_ok = true;
@@ -545,6 +551,7 @@ pub fn run_seq(sc: &SeqScenario) -> Outcome {
         drop(world);
         drop(hands);
         drop(keep);
+        set_lock_probe(None);
         sched::end();
         return Outcome { obs: 0, violations: vec![] };
     }
@@ -594,6 +601,7 @@ pub fn run_seq(sc: &SeqScenario) -> Outcome {
         }
         h.finish()
     });
+    set_lock_probe(None);
     if w(|w| w.own_clean()) {
         drop_handle(0, pool);
         w(|w| w.final_ledger(true));
